@@ -259,3 +259,62 @@ PROPS["C11"] = {
 PROPS["C02"]["jobs"]["quick"].append({"name": "bwd", "bin": "crabv", "engine": "bwd", "cases": 2500, "params": {"dom": "backward"}})
 PROPS["C02"]["jobs"]["thorough"].append({"name": "bwd", "bin": "crabv", "engine": "bwd", "cases": 60000, "params": {"dom": "backward"}})
 PROPS["C02"]["level_text"] += " The forward+backward analyzer (max_refine_iterations 0/1/5, use_refined_invariants on/off) is run with the same checker and judged the same way."
+
+ENGINES[3]["serves_properties"] = ["C01", "C02", "C03", "C04", "C05", "C09", "C10", "C11"]
+ENGINES[3]["path"] += ", e_inter.cc, e_inter_bu.cc"
+_INTER_ASSUME = _FWD_ASSUME + [
+    "calls are by value/result with frame-local names (the generator gives every function its own variable names except one deliberately shared name); recursion depth of concrete executions is budgeted",
+    "'the inputs satisfy a stored precondition' is only claimed when, besides every exported fact holding, crab's own ordering places the point value of the inputs below the precondition (the membership oracle over-approximates, C04 checks the ordering)",
+]
+PROPS["C09"] = {
+    "technique": "reference-model runtime monitor: inter-procedural executions of the CrabIR interpreter (call frames, recursion) checked against the context-insensitive invariants and the stored (pre,post) summaries of the real top_down_inter_analyzer under random inter_analyzer_parameters",
+    "level_text": "generated call graphs (1-5 functions, repeated calls with different arguments, outputs overwriting arguments, a variable name shared between caller and callee, direct and mutual recursion in half the cases) are analysed with random max_call_contexts (0,1,2,unbounded), exact/approximate summary reuse, precise/imprecise recursion, only-main or all entries, widening parameters, 10 domains; every block entry/exit of every frame of 5+ executions per initial state is checked against get_pre/get_post, every completed call against every stored summary pair. Held on the executions run.",
+    "level_note": "sampled; executions are budgeted prefixes; summaries are challenged only by calls whose inputs crab's own ordering places under the precondition",
+    "rule": "a case is (call graph, domain, inter parameters); non-trivial = at least one callee frame was executed and one membership check was made against a non-top invariant; distinct = hash of program + configuration",
+    "jobs": {
+        "quick": [{"name": "td", "bin": "crabv", "engine": "td", "cases": 4000, "params": {"dom": "inter"}, "shards": 64}],
+        "thorough": [{"name": "td", "bin": "crabv", "engine": "td", "cases": 150000, "params": {"dom": "inter"}, "shards": 1024}],
+    },
+    "floor": {"quick": 2000, "thorough": 50000},
+    "counter_floors": {"quick": {"call_frames": 50000, "summary_preconditions_satisfied": 5000, "callees_with_several_call_sites": 1500, "programs_with_recursion": 500, "programs_exceeding_or_near_context_bound": 800}},
+    "assumptions": _INTER_ASSUME,
+}
+PROPS["C10"] = {
+    "technique": "reference-model runtime monitor: inter-procedural interpreter executions checked against the invariants of the top-down phase and, for arbitrary inputs, against the bottom-up summaries of the real bottom_up_inter_analyzer, with the summary domain equal to or different from the invariant domain",
+    "level_text": "generated call graphs (DAGs and recursive components) analysed by bottom_up_inter_analyzer<CG, BU, TD> with TD any of 10 domains and BU the same domain, intervals or split DBM (statically different types); block invariants are checked on executions from main, summaries on executions of each callee from arbitrary inputs (a summary must relate inputs/outputs of every terminating execution). Held on the executions run.",
+    "level_note": "sampled; two concrete summary domains besides 'same'; executions are budgeted",
+    "rule": "a case is (call graph, invariant domain, summary domain, fixpoint parameters); non-trivial as for C09; distinct = hash of program + configuration",
+    "jobs": {
+        "quick": [{"name": "bu", "bin": "crabv", "engine": "bu", "cases": 4000, "params": {"dom": "inter"}, "shards": 64}],
+        "thorough": [{"name": "bu", "bin": "crabv", "engine": "bu", "cases": 150000, "params": {"dom": "inter"}, "shards": 1024}],
+    },
+    "floor": {"quick": 2000, "thorough": 50000},
+    "counter_floors": {"quick": {"call_frames": 50000, "summary_preconditions_satisfied": 50000, "bu_summary_domain_intervals": 500, "bu_summary_domain_split_dbm": 500}},
+    "assumptions": _INTER_ASSUME,
+}
+PROPS["C02"]["jobs"]["quick"].append({"name": "td", "bin": "crabv", "engine": "td", "cases": 2500, "params": {"dom": "inter"}, "shards": 48})
+PROPS["C02"]["jobs"]["thorough"].append({"name": "td", "bin": "crabv", "engine": "td", "cases": 60000, "params": {"dom": "inter"}, "shards": 512})
+PROPS["C02"]["level_text"] += " The checker interleaved with the top-down inter-procedural analysis is judged per assertion over all calling contexts (SAFE/UNREACHABLE only if every context says so)."
+
+ENGINES[3]["serves_properties"] = ["C01", "C02", "C03", "C04", "C05", "C09", "C10", "C11", "C12"]
+ENGINES[3]["path"] += ", e_exact.cc"
+_EXACT_DOMS = "int+sdbm+sdbm_ss+sdbm_pt+sdbm_ht+sdbm_safe+sdbm_big+dbm+soct"
+PROPS["C12"] = {
+    "technique": "executable reference model: a tight integer closure of octagonal constraints (shortest paths + tightening + strengthening), restricted to the language of the domain under test and cross-checked against brute-force enumeration in the same run, compared with the real intervals / zones (4 graph representations, safe and bignum weights, sparse DBM) / octagons after every operation of random histories; differential monitor of liftings and products against their base domain",
+    "level_text": "histories of 10-40 operations (assume of single constraints and batches incl. equalities and strict inequalities, join, meet, in-place variants, forget, project, copies) over 4 values and 2-4 variables with constants from 0 to 2^38 (2^70 for unbounded weights) and all zones/oct parameters: after every operation is_bottom, entails(e<=b) and entails(e<=b-1) for every expression e of the language with its exact bound b, unboundedness, at() and operator[] are compared with the reference. Liftings (boolean, array smashing/adaptive, region) and products (term x zones, interval x congruence): the same straight-line numerical code on base and lifted domain, at()/operator[] of the lifted one must be included in the base's after every statement. Held on the histories run.",
+    "level_note": "operator<= completeness is only counted (the property does not ask for it); a wrong 'true' is reported under C04; the reference closure is trusted after its brute-force self-check on instances with <=3 variables and |constants|<=8",
+    "rule": "exact: a case is one history over one domain and parameter setting, non-trivial = at least 3 operation kinds and one finite bound compared; lift: a case is one straight-line program over one (lifted, base) pair, non-trivial = at least one comparison where the base's interval is not top; distinct = hash of history + configuration",
+    "jobs": {
+        "quick": [{"name": "exact", "bin": "crabv", "engine": "exact", "cases": 36000, "params": {"dom": _EXACT_DOMS}},
+                  {"name": "lift", "bin": "crabv", "engine": "lift", "cases": 40000}],
+        "thorough": [{"name": "exact", "bin": "crabv", "engine": "exact", "cases": 500000, "params": {"dom": _EXACT_DOMS}},
+                     {"name": "lift", "bin": "crabv", "engine": "lift", "cases": 600000}],
+    },
+    "floor": {"quick": 10000, "thorough": 300000},
+    "counter_floors": {"quick": {"finite_bounds_checked": 300000, "reference_selfchecks": 1000, "bound_comparisons_base_not_top": 100000, "bottom_values_checked": 2000}},
+    "assumptions": [
+        "the language of a domain is fixed by its kind: intervals +-x<=k; zones add x-y<=k; octagons add +-x+-y<=k; strict inequalities and equalities over integers are rewritten (e<k is e<=k-1)",
+        "checked-int64 weights (sdbm_safe) and plain int64 weights get constants below 2^39 because larger ones are refused by design; bignum weights and intervals get up to 2^70",
+        "the least upper bound of the domain is the pointwise maximum of the tightly closed reference restricted to the language",
+    ],
+}
